@@ -36,8 +36,10 @@ def one_model(chk, binary, name, model, cfg, stats):
     viol, st = bgrun.judge(em, model, res)
     sv, ns = bgrun.judge_sizes(em, model, res.get("sizes", {}), "C")
     st["sizes_compared"] = ns
+    hv, nh = res.get("helpers", ([], 0))
+    st["helper_cases"] = nh
     seen = set()
-    for sig, d in viol + [("C17:" + s, d) for s, d in sv]:
+    for sig, d in viol + [("C17:" + s, d) for s, d in sv + hv]:
         if sig not in seen:
             seen.add(sig)
             chk.violation(sig, "model %s (config %s): %s" % (name, cfg, d), tag)
@@ -151,10 +153,12 @@ def run(chk, replay=None):
                             "cbindgen's C++ shape (templates, `using` chains, opaque zero-sized items); there each root type gets its own C++ driver (g++ -std=c++11; thorough adds clang++ and "
                             "c++17) that fills template vtables with mocks, calls every member-function wrapper, consumes through `std::move(obj).f()` and lets destructors run. "
                             "sizeof every object and container type as the C/C++ compiler sees it in the processed header is compared with the size the Rust definitions give it. "
+                            "The helper macros of the C header (COLLECT_CB, COLLECT_CB_INTO_ARR, COUNT_CB, BUF_ITER) are driven the way Rust drives callbacks and iterators, 0..1000 items. "
                             "evaluations = wrapper calls; distinct = vtable entries reached")
     chk.floor("wrapper calls", stats.get("calls", 0), 200)
     chk.floor("models", stats.get("models", 0), 20)
     chk.floor("vtable entries reached", stats.get("slots_covered", 0), 100)
+    chk.floor("header helper cases", stats.get("helper_cases", 0), 100)
     chk.floor("C++ wrapper calls", stats.get("cpp_calls", 0), 60)
     chk.floor("C++ root types driven", stats.get("cpp_roots_driven", 0), 10)
     chk.assumptions += ["headers come from an emulator of cbindgen's output shape (cbindgen is not installed); its fidelity is argued by calibration against the shipped pre-generated header",
